@@ -32,7 +32,7 @@ def cases(tier, seed):
     # the Hermitian lattice of C01-C03, including the threshold / legacy-sparse / later-mask families
     from . import hermlat
 
-    out = [c for c in hermlat.cases(tier, seed) if not (c["repr"] == "sympy" and sum(c["sizes"]) > 3 and c["k"] == 2)]
+    out = [c for c in hermlat.cases(tier, seed) if not (c["repr"] == "sympy" and sum(c["sizes"]) > 3 and c["k"] == 2) and not c.get("symbolic")]
     for c in out:
         c["total"] = min(c["total"], 4)
     return out
